@@ -23,6 +23,8 @@ ASSUMPTIONS = ['a stream read with a /Length different from its payload length d
                'only xref-stream items carry /Type /XRef, only object-stream items /Type /ObjStm; no /Encrypt in trailers',
                'header offset + any offset written in the file < 2^64; object values nest less than 50 deep']
 CASE_TIMEOUT = 60
+XC_MAXLEN = 5000
+XC_CASES = 10
 
 
 def cases(tier, rng):
